@@ -157,6 +157,9 @@ int main(int argc, char **argv)
                 bool failed = false;
                 for (int s = 0; s < 4 && !failed; s++) {
                   if (ss && s >= 1) for (int a = 0; a < NAT; a++) px->fsys[a] = cvm::rvector(0, 0, 0);
+                  // lagged timing: the geometry changes from step to step, so that the Jacobian term of the step at which
+                  // the forces acted differs from the one of the step at which they are reported
+                  if (!ss) for (int a = 0; a < NAT; a++) px->x[a] = x[a] + cvm::rvector(0.11 * s * ((a % 3) - 1), -0.07 * s * (a % 2), 0.05 * s * ((a * 5) % 4 - 1.5));
                   if (px->step(s) != 0) { r.violation(std::string("C07:error-during-run:") + c.name, det + ",\"error\":\"" + jesc(px->errtxt.substr(0, 200)) + "\"}"); failed = true; break; }
                   r.count("transitions");
                   colvar *cv = px->cv("v");
@@ -165,12 +168,13 @@ int main(int argc, char **argv)
                   if (std::string(c.name) == "dihedral") diff = std::remainder(diff, 360.0);
                   fb.push_back(-1.5 * diff);  // (force constant scaled with the square of the width)
                   val.push_back(xv);
+                  jd.push_back(cv->fj.real_value);
                   std::vector<cvm::rvector> ap(NAT);
                   for (int a = 0; a < NAT; a++) ap[a] = px->fapp[a];
                   applied.push_back(ap);
                   if (!ss && s >= 1) {
                     // lagged: the forces applied at step s-1 come back now; attributed to step s-1
-                    double kTjd = (cv->fj.real_value);
+                    double kTjd = jd[s - 1];
                     double expect = (sub ? 0.0 : fb[s - 1]) + ((hide && sub) ? 0.0 : (hide ? 0.0 : kTjd));
                     double got = cv->total_force().real_value;
                     if (!close_rel(got, expect, std::max(1.0, std::fabs(expect)), 1e-9, 1e-10)) {
